@@ -27,6 +27,20 @@ def grid(tier):
                     out.append({'mode': 'client', 'class': 'deadline', 'transport': 'h2', 'shim': {'cap': 65536, 'rq': 65536, 'wq': 65536, 'pend': 0},
                                 'shape': 'unary', 'server': server, 'client': client, 'req': {'meta': [], 'msgs': [[1]]},
                                 'script': {'init_meta': [], 'msgs': [[2]], 'end': {'ok': True}, 'fail_before': False, 'no_compress': False, 'latency_ms': L}})
+    # zero timeouts (a boundary of the grid): with a handler that needs time the call is cut off at once
+    for tc, tsrv, te in ((0, None, None), (None, 0, None), (None, None, 0), (0, 1000, None), (2000, 0, None)):
+        for L in (500, 1500):
+            client = {'send': '', 'accept': [], 'max_dec': -1, 'max_enc': -1}
+            server = {'send': [], 'accept': [], 'max_dec': -1, 'max_enc': -1}
+            if tc is not None:
+                client['timeout_ms'] = tc
+            if te is not None:
+                client['endpoint_timeout_ms'] = te
+            if tsrv is not None:
+                server['timeout_ms'] = tsrv
+            out.append({'mode': 'client', 'class': 'deadline_zero', 'transport': 'h2', 'shim': {'cap': 65536, 'rq': 65536, 'wq': 65536, 'pend': 0},
+                        'shape': 'unary', 'server': server, 'client': client, 'req': {'meta': [], 'msgs': [[1]]},
+                        'script': {'init_meta': [], 'msgs': [[2]], 'end': {'ok': True}, 'fail_before': False, 'no_compress': False, 'latency_ms': L}})
     # deadline x call shape: the handler of every shape takes L before it answers (the streaming shapes then stream two messages)
     for shape in ('cstream', 'sstream', 'bidi'):
         for tc, tsrv in ((1000, None), (None, 1000), (2000, 1000), (None, None)):
